@@ -6,6 +6,31 @@ ALL = ["C%02d" % i for i in range(1, 21)]
 
 # id -> (technique, level text, level_note, design_ref)
 CLAIMS = {
+ "C03": ("Lean 4 refinement + invariant proofs on the control-flow model with options; three-way correspondence; decision-table check for nounset",
+         "Proof: the C02 models extended with set -e / pipefail / inherit_errexit toggles, command substitutions, eval and pipelines. "
+         "errexit_refines_bash_partial: on every well-scoped program brush exits (or not) at exactly the command where the bash reference "
+         "semantics does, with the same trace and status; exempt_failure_never_exits: under a suppressed context (if/while/until condition, "
+         "non-final &&/|| operand, `!`) no failure however deeply nested through groups, functions, eval, loops, case, subshells, command "
+         "substitutions or pipelines produces an exit; pipefail_status_is_rightmost_nonzero_else_last; errexit_off_in_cmdsubst_unless_inherit. "
+         "Tie: exhaustive family (failing leaf x 13 contexts x 10 wrappers x 5 option settings x 2 nesting orders) + seeded random programs "
+         "run in brush and bash and both Lean models. nounset: 49 expansion forms x 9 variable states (+ positional cases) decided directly "
+         "brush vs bash (exploration, not proof).",
+         "Trusted: Lean kernel + standard axioms; bash 5.2.15 as oracle. The Lean bash-errexit semantics (Spec/FlowBash.lean: checks after simple "
+         "commands, subshells, pipelines, failing builtins; not after groups/loops/if/case) is validated against bash on every case. Three bash "
+         "behaviours contradicting the property's wording are excluded from generation (DESIGN.md). nounset has no theorem yet: it is decided "
+         "by direct comparison only (partial).",
+         "DESIGN.md §6 C03"),
+ "C13": ("Lean 4 round-trip proofs (reader ∘ quoter = id) over tables regenerated from escape.rs + in-process and end-to-end correspondence",
+         "Proof: Model/Quote.lean mirrors escape::quote and the value printers, Model/Unquote.lean the reader (brush and bash variants); tables "
+         "(needs_escaping, double-quote escapes, ANSI-C arms) are regenerated from escape.rs on every run. 21 theorems over all strings: "
+         "read_singleQuote, read_doubleQuote, read_ansiC_bash, read_quote_partial/_ctl_partial (the dispatcher, all modes), printers "
+         "(atQ_rereads, declare_p_value_rereads, printfQ_partial); full statements refuted by proved counter-examples where brush is wrong "
+         "(tilde, hash, \\0dd+digit, unescaping printers) and recorded as findings. Tie: six quote variants in-process vs model; 17 printer "
+         "forms end to end, text eval'ed in brush and bash, values/keys/attributes compared with the originals; exhaustive to length 3 over a "
+         "20-character alphabet + random to 40.",
+         "Trusted: Lean kernel + standard axioms; translator for the tables (raises when the Rust item changes shape); bash as second reader. "
+         "Array-element re-reading has no model (checked directly only).",
+         "DESIGN.md §6 C13"),
  "C02": ("Lean 4 refinement proof (brush's result-value control flow vs bash's global-counter semantics) + three-way correspondence (brush, bash, both models)",
          "Proof: Model/Flow.lean mirrors interp.rs (lists, and-or, `!`, if, while/until, for, case with ;; ;& ;;&, groups, subshells, "
          "function calls, break/continue/return/exit, set -e) arm by arm; Spec/FlowBash.lean is bash's mechanism (loop_level/breaking/"
